@@ -20,7 +20,7 @@ Record arg := { a_ty : vtype; a_id : nat }.
 
 (* the Go type of the variable a parameter is unpacked into *)
 Inductive tkind :=
-| KValue | KString | KBool | KInt | KInt8 | KFloat | KList | KDict | KCallable | KIterable.
+| KValue | KString | KBool | KInt | KInt8 | KUint8 | KFloat | KList | KDict | KCallable | KIterable.
 
 Record uparam := { p_name : string; p_marker : marker; p_kind : tkind }.
 
@@ -44,6 +44,7 @@ Definition accepts (k : tkind) (t : vtype) : bool :=
   | KBool, TBool => true
   | KInt, TInt z => (Z.leb (- 2 ^ 63) z && Z.ltb z (2 ^ 63))%bool
   | KInt8, TInt z => (Z.leb (- 128) z && Z.ltb z 128)%bool
+  | KUint8, TInt z => (Z.leb 0 z && Z.ltb z 256)%bool          (* AsInt, unsigned branch *)
   | KFloat, TFloat => true                       (* v.(Float): an int is NOT accepted *)
   | KList, TList => true
   | KDict, TDict => true
